@@ -47,7 +47,13 @@ def extract(ctx):
     if pygen.extract_clean(ctx):
         ctx.notes.append("I2N/Extracted/GenClean.lean changed: the source of TestNode.default_clean_decision differs from "
                          "the one the committed file was generated from (cleanDecision_matches_source is re-checked)")
-    ctx.extra["regenerated"] = "lean/I2N/Extracted/GenClean.lean (TestNode.default_clean_decision via harness/pygen.py)"
+    import pygen_pxloc
+    if pygen_pxloc.extract_involved(ctx):
+        ctx.notes.append("I2N/Extracted/GenInvolved.lean changed: the source of TestNode.shared_involved_workers differs "
+                         "from the one the committed file was generated from (involved_matches_source is re-checked)")
+    ctx.extra["regenerated"] = ("lean/I2N/Extracted/GenClean.lean (TestNode.default_clean_decision via harness/pygen.py); "
+                                "lean/I2N/Extracted/GenInvolved.lean (TestNode.shared_involved_workers via "
+                                "harness/pygen_pxloc.py)")
 
 
 def wellformed(lines):
